@@ -661,6 +661,8 @@ ARGS = {
     "sliding_windows": [(2, 1), (3, 2, 1)],
     "strand_symmetry": [()],
     "take_positions": [([0, 2],), ([1], True)],
+    # (the plain call refuses most bases here -- gaps inside codons, stops --; the second form returns a value for all of them)
+    "get_translation": [(), (None, True, True)],
     "take_seqs": ["@name1-first", "@name0-negate"],
     "to_fasta": [(), (3,)],
     "to_nexus": [("dna",)],
